@@ -52,6 +52,36 @@ type c04mcontact struct {
 	hasRecord bool
 }
 
+// c04foldContacts returns the folded record of every contact (latest event wins, older carrying events backfill).
+func c04foldContacts(events []c04event) map[int]*c04mcontact {
+	cs := map[int]*c04mcontact{}
+	for i := len(events) - 1; i >= 0; i-- {
+		e := events[i]
+		switch e.kind {
+		case "enq", "recv":
+			if c, ok := cs[e.contact]; ok {
+				if c.meta == nil {
+					c.meta = e.meta
+				}
+				if c.seed == nil {
+					c.seed = e.seed
+				}
+				continue
+			}
+			st := protocoltypes.ContactState_ContactStateToRequest
+			if e.kind == "recv" {
+				st = protocoltypes.ContactState_ContactStateReceived
+			}
+			cs[e.contact] = &c04mcontact{state: st, seed: e.seed, meta: e.meta}
+		case "sent", "accept", "discard", "block", "unblock":
+			if _, ok := cs[e.contact]; !ok {
+				cs[e.contact] = &c04mcontact{}
+			}
+		}
+	}
+	return cs
+}
+
 func c04foldDigest(events []c04event, contacts []*c04contact, base string) string {
 	cs := map[int]*c04mcontact{}
 	own := map[int][]byte{}
